@@ -18,7 +18,7 @@
  *            p            a CIF pre-filled from the tokens after `pre`
  *   everything after a `|` token is an annotation for the oracle and is ignored here.
  *
- *   answer:  ps rc=<return value> n=<callback invocations> log=<code>:<line>,…|- ptr=<ok|bad<k>> ops=<b>,<f>,<s>,<l>,<p>,<r>
+ *   answer:  ps rc=<return value> n=<callback invocations> log=<code>:<line>,…|- ptr=<ok|bad<k>> ops=<b>,<f>,<s>,<l>,<p>,<r> seq=<letters|->
  *            kinds=<n> cif=<canonical dump|~>
  *            post=<walk rc>,<write rc>,<modify rc>,<destroy rc>|~ [aa=<code>]
  *   aa (policy d only): the first code an ACCEPT-ALL parse of the same input into an equivalent fresh target reports (0 = none)
@@ -34,11 +34,21 @@
  * wraps every call the productions make (the declarations have been read above).  Counted: calls that return CIF_OK while the
  * parse under observation runs — [0] cif_create_block(_internal), [1] cif_container_create_frame(_internal),
  * [2] cif_container_set_value, [3] cif_container_create_loop, [4] cif_loop_add_packet, [5] cif_container_prune.
- * The model side is the trace of Model/ParserTrace.lean (`ops=` field).
+ * and the ORDER of these calls (`seq=` field, one letter per call).  The model side is the trace of Model/ParserTrace.lean.
  */
 static long ops_cnt[6];
 static int ops_on;
-static int ops_count(int rc, int k) { if (ops_on && rc == CIF_OK) ops_cnt[k] += 1; return rc; }
+static char *ops_seq;            /* the successful calls in order of occurrence, one letter each: b f s l p r */
+static size_t ops_len, ops_cap;
+static int ops_count(int rc, int k) {
+    if (ops_on && rc == CIF_OK) {
+        ops_cnt[k] += 1;
+        if (ops_len + 2 > ops_cap) { ops_cap = ops_cap ? ops_cap * 2 : 256; ops_seq = (char *) realloc(ops_seq, ops_cap); }
+        ops_seq[ops_len++] = "bfslpr"[k];
+        ops_seq[ops_len] = 0;
+    }
+    return rc;
+}
 #define cif_create_block(c, code, b) ops_count((cif_create_block)((c), (code), (b)), 0)
 #define cif_create_block_internal(c, code, l, b) ops_count((cif_create_block_internal)((c), (code), (l), (b)), 0)
 #define cif_container_create_frame(c, code, f) ops_count((cif_container_create_frame)((c), (code), (f)), 1)
@@ -180,6 +190,8 @@ static void handle(int argc, char **argv) {
     ceol = neol ? to_cstr(eol, neol) : NULL;
 
     memset(ops_cnt, 0, sizeof(ops_cnt));
+    ops_len = 0;
+    if (ops_seq) ops_seq[0] = 0;
     ops_on = 1;
     rc = run_parse(&scanner, &source, &elog, units, len, dia, mfd, fold, prefix, nutf8, cws, ceol, cif);
     ops_on = 0;
@@ -189,6 +201,8 @@ static void handle(int argc, char **argv) {
     for (i = 0; i < elog.n; i++) OUT("%s%d:%lu", i ? "," : "", elog.code[i], (unsigned long) elog.line[i]);
     if (elog.badptr >= 0) OUT(" ptr=bad%ld", elog.badptr); else OUT(" ptr=ok");
     OUT(" ops=%ld,%ld,%ld,%ld,%ld,%ld", ops_cnt[0], ops_cnt[1], ops_cnt[2], ops_cnt[3], ops_cnt[4], ops_cnt[5]);
+    OUT(" seq=%s", ops_len ? ops_seq : "-");
+    free(ops_seq); ops_seq = NULL; ops_len = ops_cap = 0;   /* per-request leak accounting: nothing may stay allocated */
     if (cif == NULL) {
         OUT(" kinds=0 cif=~ post=~");
     } else {
